@@ -533,8 +533,8 @@ class Fn:
             cands.append((e, rest))
         if not cands:
             e = E('local', info={'l': l, 'ty': self.locals[l] if l < len(self.locals) else '?'})
-            return self._apply_proj(e, proj, depth, stack2)
-        outs = [self._apply_proj(e, rest, depth, stack2) for e, rest in cands]
+            return self._apply_proj(e, proj, depth, stack)
+        outs = [self._apply_proj(e, rest, depth, stack) for e, rest in cands]
         if len(outs) == 1:
             return outs[0]
         return E('phi', args=outs, info={'l': l})
@@ -549,6 +549,9 @@ class Fn:
                     e = ne
                 else:
                     e = E('unop', op='Overflowed', a=e)
+            elif k == 'field' and x.get('union') and e.kind == 'agg' and len(e.args) == 1:
+                # reading a union literal through any field = a transmute of its one operand
+                e = E('cast', a=e.args[0], info={'ck': 'UnionTransmute', 'ty': x.get('ty', ''), 'field': x['n']})
             elif k == 'field':
                 # field of an aggregate literal: pick the operand
                 if e.kind == 'agg' and e.info.get('ak') in ('tuple', 'adt', 'closure') and x['i'] < len(e.args) \
